@@ -290,6 +290,54 @@ def carried_overlap_loops() -> list[tuple[str, list[int], list[int]]]:
     return out
 
 
+def nested_bound_loops() -> list[tuple[str, list[int], list[int]]]:
+    """Directed family: nested loops whose inner bound / step is computed outside the outer loop and used nowhere else in
+    the outer body, followed in the outer body by a chain of simultaneously live temporaries (register pressure after
+    the inner loop, at least two outer iterations)."""
+    out = []
+    for which in ("ub", "lb", "step"):
+        for ntemps in (3, 5, 8):
+            for outer_n in (2, 3):
+                lb, ub, st = "%c0", "%k", "%c1"
+                if which == "lb":
+                    lb, ub = "%k", "%c6"
+                elif which == "step":
+                    lb, ub, st = "%c0", "%c6", "%k"
+                temps = ["%iv = arith.index_cast %i : index to i32", "%t0 = arith.muli %b, %iv : i32", "%t1 = arith.addi %t0, %b : i32"]
+                live = ["%t0", "%t1"]
+                for t in range(2, ntemps):
+                    a, b2 = live[-1], live[-2]
+                    temps.append(f"%t{t} = arith.{'xori' if t % 2 else 'addi'} {a}, {b2} : i32")
+                    live.append(f"%t{t}")
+                acc = live[0]
+                fold = []
+                for k, v in enumerate(live[1:]):
+                    fold.append(f"%s{k} = arith.addi {acc}, {v} : i32")
+                    acc = f"%s{k}"
+                text = ("func.func @main(%x : i32, %z : i32) -> i32 {\n  %c0 = arith.constant 0 : index\n  %c1 = arith.constant 1 : index\n  %c6 = arith.constant 6 : index\n"
+                        f"  %n = arith.constant {outer_n} : index\n  %c3 = arith.constant 3 : i32\n  %one = arith.constant 1 : i32\n"
+                        "  %m0 = arith.andi %z, %c3 : i32\n  %m1 = arith.addi %m0, %one : i32\n  %k = arith.index_cast %m1 : i32 to index\n"
+                        "  %r = scf.for %i = %c0 to %n step %c1 iter_args(%a = %x) -> (i32) {\n"
+                        f"    %b = scf.for %j = {lb} to {ub} step {st} iter_args(%q = %a) -> (i32) {{\n      %jv = arith.index_cast %j : index to i32\n"
+                        "      %u = arith.addi %q, %jv : i32\n      scf.yield %u : i32\n    }\n    "
+                        + "\n    ".join(temps + fold) + f"\n    scf.yield {acc} : i32\n  }}\n  func.return %r : i32\n}}\n")
+                out.append((text, [32, 32], [32]))
+    return out
+
+
+def signed_bound_loops() -> list[tuple[str, list[int], list[int]]]:
+    """Directed family: loops whose constant bounds have opposite or negative signs (the loop-entry guard and the back
+    edge compare signed), also empty ranges."""
+    out = []
+    for lb, ub in ((-3, 4), (2, -1), (-5, -2), (-2, -5), (0, 3), (-1, 0), (-2147483648, -2147483646), (2147483645, 2147483647)):
+        for st in (1, 2):
+            text = (f"func.func @main(%x : i32, %z : i32) -> i32 {{\n  %lb = arith.constant {lb} : index\n  %ub = arith.constant {ub} : index\n  %st = arith.constant {st} : index\n"
+                    "  %r = scf.for %i = %lb to %ub step %st iter_args(%acc = %z) -> (i32) {\n    %iv = arith.index_cast %i : index to i32\n"
+                    "    %t = arith.muli %acc, %x : i32\n    %y = arith.addi %t, %iv : i32\n    scf.yield %y : i32\n  }\n  func.return %r : i32\n}\n")
+            out.append((text, [32, 32], [32]))
+    return out
+
+
 def carried_arg_read_after_next_value_defined(module) -> bool:
     """Does some scf.for read a carried block argument after the operation that defines the value yielded for it?"""
     from xdsl.dialects import scf
@@ -439,7 +487,7 @@ def run(ctx: Ctx):
     metas: list[dict[str, Any]] = []
     stats = {"pipeline_raised": 0, "asm_unsupported": 0, "source_unsupported": 0, "canon_raised": 0}
     raised_kinds: dict[str, int] = {}
-    directed = bound_reading_loops() + carried_overlap_loops()
+    directed = bound_reading_loops() + carried_overlap_loops() + nested_bound_loops() + signed_bound_loops()
     for k in range((140 if q else 3000) + len(directed)):
         rng = ctx.rng(f"prog{k}")
         if k < len(directed):
